@@ -9,6 +9,13 @@ hook_commits = [l.split()[0] for l in HOOK_COMMITS if "verif" in l.lower() and n
 
 # id -> (engine, technique, level text, level note, design ref)
 CHECKS = {
+    "C02": (
+        "E2",
+        "bounded-exhaustive enumeration of dimension-typed programs without a well-typedness filter (every mis-dimensioned variant included) against an independent dimensional-analysis reference; rejected programs embedded at every position of a multi-statement input",
+        "Every expression of depth <= 2 over a collision alphabet of units/variables with + - * / -> rational powers, unary minus, conditionals, lists and calls of inferred, annotated and generic functions is generated WITHOUT filtering for consistency, then again under 6 annotations, as unit and derived-dimension definitions and inside 9 function bodies with every call argument and (parameter, return) annotation pair (106k programs quick). An independent reference (dimension vectors derived from the units' run-time definitions, unification on + - -> comparison branches list arguments annotations) decides consistent / inconsistent / outside the quantifier; the checker must reject exactly the inconsistent ones with a type error and report the reference's type for the others. A subset of rejected programs is embedded at every position of a multi-statement input: nothing may be printed or defined.",
+        "Trusted: the DimInfer reference (about 150 lines) and its exclusion rules; generic functions compared at call sites; depth-bounded.",
+        "§4 C02",
+    ),
     "C09": (
         "E2",
         "bounded-exhaustive type-directed enumeration of all well-typed expressions up to size N over a scaffold session, each compared with an independent big-step reference evaluator",
